@@ -171,6 +171,7 @@ class ProcRig:
         conn.commit()
         self.counts = {}
         self.cap, self.fp, self.trust = cap, fp, trust
+        self._cfg_n = (cap or 0) + (3 if trust else 0)      # which extra options the restarts of this case use: a function of the case
         self.restart()
 
     def restart(self) -> None:
@@ -182,7 +183,14 @@ class ProcRig:
 
         reset_deduplicator()
         get_deduplicator(expected_items=self.cap, false_positive_rate=self.fp)
-        self.processor = QueueProcessor(self.queue, config=QueueProcessorConfig(dedup_trust_negative_cache=self.trust), store=self.store)
+        # the other processor options must not change what the dedup option means: they vary per (re)start
+        self._cfg_n = getattr(self, "_cfg_n", 0) + 1
+        extra = [{}, {"max_workers": 1}, {"max_workers": 2}, {"poll_frequency_ms": 5, "stop_on_error": True},
+                 {"max_workers": 1, "enable_lock_heartbeat": False}][self._cfg_n % 5]
+        cfg = QueueProcessorConfig(dedup_trust_negative_cache=self.trust, **extra)
+        if cfg.dedup_trust_negative_cache != self.trust:
+            self.config_flips = getattr(self, "config_flips", 0) + 1     # reported by the suite (the model gets the REQUESTED value)
+        self.processor = QueueProcessor(self.queue, config=cfg, store=self.store)
         self.processor.register_handler_func(StartWorkflow, self._handler)
 
     def _handler(self, message) -> None:
